@@ -1,6 +1,10 @@
 SPECIFICATION Spec
 CONSTANTS
   Clients = {1, 2}
+  Procs = {1, 2}
+  ClientOf <- CO_id
+  NilProcs = {}
+  LoadProcs = {1, 2}
   Keys = {1}
   MaxInc = 2
   MaxLoads = 2
@@ -16,9 +20,12 @@ CONSTANTS
   BugReturnPh = FALSE
   BugNoLiveness = FALSE
   BugDelNoCompare = FALSE
+  BugNoAdopt = FALSE
+  BugNilFastPath = FALSE
+  BugStealPlainDel = FALSE
   Record = FALSE
   GenLen = 30
-INVARIANTS TypeOK NeverReturnsPlaceholder ValueFromLoaderOrStore LoaderOnceWhileHolderAlive LockStolenOnlyFromDead DelOnlyOwn NoOrphanWait
+INVARIANTS TypeOK NeverReturnsPlaceholder ValueFromLoaderOrStore LoaderOnceWhileHolderAlive LockStolenOnlyFromDead DelOnlyOwn NoOrphanWait LockNamesRefreshedId
 
 
 CHECK_DEADLOCK FALSE
